@@ -63,6 +63,7 @@ import (
 	"golang.org/x/crypto/scrypt"
 
 	"verifsim/core"
+	"verifsim/simrt"
 	"verifsim/faultdb"
 )
 
@@ -250,6 +251,10 @@ func (sim) Generate(_ string, tier string, seed uint64) *core.Plan {
 		emitPut()
 	}
 	for len(p.Ops) < nops {
+		if unlocked && r.Chance(1, 10) {
+			// another caller locks the manager while this one encrypts
+			add(core.Op{K: "encrace", A: []int64{int64(r.Intn(3)), int64(r.Uint64() >> 1), ptLen(), int64(r.Intn(3))}})
+		}
 		k := base[r.Weighted(w)].k
 		s16 := func() int64 { return int64(r.Intn(1 << 16)) }
 		switch k {
@@ -1192,6 +1197,91 @@ func (x *exec) step(i int, op core.Op, sweepMax int) string {
 			env.Count("probe.sweep-all-truncations")
 		}
 		return fmt.Sprintf("slot=%d key=%d len=%d what=%d", si, s.key, len(cur), what)
+
+	case "encrace":
+		// Manager.Encrypt / Decrypt by one caller while another caller locks
+		// the manager, under the seeded scheduler (every mutex acquisition
+		// and release of waddrmgr is a scheduling point). Whatever the order:
+		// a call that reports success has used the key of its type — what it
+		// sealed opens again once the manager is unlocked, and what it opened
+		// is the plaintext.
+		if x.mgr.IsLocked() || x.mgr.WatchOnly() {
+			return "skip"
+		}
+		kt := []waddrmgr.CryptoKeyType{waddrmgr.CKTPrivate, waddrmgr.CKTScript, waddrmgr.CKTPublic}[int(uint64(op.Arg(0))%3)]
+		n := int(op.Arg(2))
+		if n < 0 {
+			n = 0
+		}
+		if n > 512 {
+			n = 512
+		}
+		pt := core.NewRand(uint64(op.Arg(1)) ^ 0x5eed).Bytes(n)
+		env.Count("op.encrace")
+		env.Eff()
+		// a ciphertext made beforehand, for the Decrypt variant
+		pre, perr := x.mgr.Encrypt(kt, cp(pt))
+		if perr != nil {
+			return "skip"
+		}
+		var ct, back []byte
+		var eerr, derr error
+		variant := op.Arg(3) % 3
+		rep := simrt.Run(simrt.Config{Seed: uint64(op.Arg(1)), Strategy: []string{"random", "rtb1", "pct"}[int(uint64(op.Arg(1))%3)],
+			StuckAfter: time.Hour, MaxSteps: 20000, ExpectedSteps: 60, YieldAfterUnlock: true}, func() {
+			simrt.GoNamed("enc", func() {
+				if variant == 2 {
+					back, derr = x.mgr.Decrypt(kt, cp(pre))
+				} else {
+					ct, eerr = x.mgr.Encrypt(kt, cp(pt))
+				}
+			})
+			simrt.GoNamed("lock", func() {
+				if variant == 1 {
+					simrt.Yield("harness:before-lock")
+				}
+				_ = x.mgr.Lock()
+			})
+			simrt.WaitIdle("harness:encrace")
+		})
+		if rep.Stuck || rep.StepLimit {
+			env.Fail(prop, "encrace:stuck", "Encrypt/Decrypt beside Lock did not finish: %s", rep.StuckInfo)
+			return "violation"
+		}
+		env.Add("sched.steps", int64(rep.Steps))
+		x.wasLocked = true
+		if err := walletdb.View(x.db, func(tx walletdb.ReadTx) error {
+			return x.mgr.Unlock(tx.ReadBucket(nsKey), cp(x.memPriv))
+		}); err != nil {
+			env.Fail(prop, "unlock:right-passphrase-rejected:after=encrypt-beside-lock", "Unlock with the current private passphrase failed after Encrypt raced Lock: %v", err)
+			return "violation"
+		}
+		x.mevents = append(x.mevents, "lock-unlock")
+		x.wasLocked = false
+		if variant == 2 {
+			if derr == nil && !bytes.Equal(back, pt) {
+				env.Fail(prop, fmt.Sprintf("decrypt-beside-lock:wrong-plaintext:key=%v", kt), "Decrypt(%v) beside a concurrent Lock returned %d bytes that are not the plaintext, without an error", kt, len(back))
+				return "violation"
+			}
+			if derr == nil {
+				env.Count("probe.decrypt-beside-lock-succeeded")
+			} else {
+				env.Count("probe.decrypt-beside-lock-refused")
+			}
+			return "ok"
+		}
+		if eerr != nil {
+			env.Count("probe.encrypt-beside-lock-refused")
+			return "refused"
+		}
+		env.Count("probe.encrypt-beside-lock-succeeded")
+		got, err := x.mgr.Decrypt(kt, cp(ct))
+		if err != nil || !bytes.Equal(got, pt) {
+			env.Fail(prop, fmt.Sprintf("encrypt-beside-lock:not-under-its-key:key=%v", kt), "Encrypt(%v) beside a concurrent Lock returned a ciphertext without an error, but after unlocking again Decrypt(%v) gives err=%v (plaintext equal: %v): it was not sealed under the manager's key",
+				kt, kt, err, bytes.Equal(got, pt))
+			return "violation"
+		}
+		return "ok"
 
 	case "lock":
 		if x.mgr.IsLocked() {
